@@ -368,12 +368,30 @@ def run_output_units():
     for name, fs in sorted(methods.items()):
         if name in ("write_one", "write_copy"):
             for f in fs:
-                targets.append((name + "<" + ",".join(f["targs"]) + ">", f))
+                targets.append((name + "<" + ",".join(f["targs"]) + ">", f, "int64_t", "i64"))
         elif name == "dup" or name.startswith("write_"):
-            targets.append((name, fs[0]))
-    for uname, f in targets:
+            targets.append((name, fs[0], "int64_t", "i64"))
+    # the explicit specializations ForthOutputBufferOf<T>::write_<T> (same-type fast path: memcpy + in-place byte swap
+    # of the appended items) of every other instantiation: same contract -- in particular the prefix already written
+    # is untouched, so the swap must hit the appended region only
+    FAST = [("bool", "bool", "write_bool"), ("int8_t", "i8", "write_int8"), ("int16_t", "i16", "write_int16"),
+            ("int32_t", "i32", "write_int32"), ("uint8_t", "u8", "write_uint8"), ("uint16_t", "u16", "write_uint16"),
+            ("uint32_t", "u32", "write_uint32"), ("uint64_t", "u64", "write_uint64"),
+            ("float", "f32", "write_float32"), ("double", "f64", "write_float64")]
+    for cname, ty, mname in FAST:
+        try:
+            r2 = cast.extract_class_methods(FO, "ForthOutputBufferOf", [ty])
+        except Exception as ex:
+            out.append({"unit": "ForthOutputBufferOf<%s>::%s" % (cname, mname), "obligations": [], "errors": ["extraction failed: %s" % ex]})
+            continue
+        fs = r2["methods"].get(mname)
+        if not fs:
+            out.append({"unit": "ForthOutputBufferOf<%s>::%s" % (cname, mname), "obligations": [], "errors": ["method not found"]})
+            continue
+        targets.append((mname, fs[0], cname, ty))
+    for uname, f, cname, elty in targets:
         t0 = time.time()
-        res = {"unit": "ForthOutputBufferOf<int64_t>::" + uname, "obligations": [], "errors": []}
+        res = {"unit": "ForthOutputBufferOf<%s>::%s" % (cname, uname), "obligations": [], "errors": []}
         if f.get("body") is None:
             res["errors"].append("not translatable: %s" % f.get("unsupported"))
             out.append(res)
@@ -403,7 +421,7 @@ def run_output_units():
             def mk(act):
                 u = munit.MUnit(uname, copy.deepcopy(f["body"]), variables, c, consts, methods, enums,
                                 on_exit={"ret": post, "fall": post}, active=act)
-                u.buffers = {"ptr_": ("i64", "reserved_")}
+                u.buffers = {"ptr_": (elty, "reserved_")}
                 u.track_swaps = True
                 return u
             u, _ = vcgen.houdini(mk, timeout_ms=3000)
